@@ -416,7 +416,8 @@ def share_obligations(ctx: Context, module, rules: set, as_rule: str, only=None)
     if name in cache:
         sub = cache[name]
     else:
-        sub = Context(ctx.p, ctx.prop, ctx.tier)
+        # the adopted module is evaluated as its own property (its anchors, its known findings)
+        sub = Context(ctx.p, name.rsplit('.', 1)[-1].upper(), ctx.tier)
         sub.no_adopt = True
         sub._flows, sub._cfgs, sub._types = ctx._flows, ctx._cfgs, ctx._types
         try:
